@@ -214,7 +214,17 @@ def run(ctx):
         if len(nm) == 1:
             sl = c20gen.slice_back(b, nm[0][1]['args'][0])
             shown = [c[2] for c in sl.calls if 'fmt::rt::Argument' in cname(c[2]) and strip_generics(cname(c[2])).rsplit('::', 1)[-1] == 'new_display']
-            okn = len(shown) == 1 and (shown[0].get('arg_tys') or [''])[0] == '&usize' and not [c for c in sl.calls if 'len' in cname(c[2])]
+            okn = len(shown) == 1 and (shown[0].get('arg_tys') or [''])[0] == '&usize' and not [c for c in sl.calls if 'len' in cname(c[2])] and not origin(b, shown[0]['args'][0]).has_arith()
+            # the displayed constant is N itself: the promoted constant it refers to is `&N`, nothing computed
+            for pr in b.j.get('promoted', []):
+                for blk in pr:
+                    if blk['term'].get('k') not in ('return',):
+                        okn = False
+                    for st_ in blk['stmts']:
+                        if 'assign' in st_ and st_['rv']['k'] not in ('use', 'ref'):
+                            okn = False
+                        if 'assign' in st_ and st_['rv']['k'] == 'use' and 'const' in st_['rv']['op'] and st_['rv']['op']['const'].get('text') not in (None, 'N') and st_['rv']['op']['const'].get('ty') == 'usize':
+                            okn = False
     ctx.ob('SHAPES', 'byte-array-name-carries-N', okn, short_loc(b.span) if b else None, 'the fullname of the fixed built for [u8; N] is formatted from N: %s' % okn)
     ctx.ob('SHAPES', 'byte-array-is-fixed-N', ok, short_loc(b.span) if b else None, '[u8; N] builds Fixed::new(name, N): %s' % ok)
     # maps: key type is a string deref
